@@ -759,6 +759,8 @@ class Scenario:
                     nodes = reaching
             n_defs = len([1 for k, _ in self.deps.defs(owner, e.id)])
             walrus = [x for x in self.deps.fi.own_nodes() if isinstance(x, ast.NamedExpr) and x.target.id == e.id]
+            if n_defs > len(self._defnodes.get(e.id, [])) + len(walrus):
+                return NOVALUE  # also bound in a way that is not followed (`+=`, loop target, with-as, unpacking): no single value
             if not nodes and not walrus:
                 return NOVALUE
             guard = (-1, e.id)
